@@ -120,13 +120,14 @@ func BuildResponse(callID uint32, msg proto.Message, cellblock []byte, exc *pb.E
 
 // BuildRawResponse assembles a response frame from an arbitrary header.
 func BuildRawResponse(h *pb.ResponseHeader, msg proto.Message, cellblock []byte) []byte {
-	hb, err := proto.Marshal(h)
+	hb, err := proto.MarshalOptions{AllowPartial: true}.Marshal(h)
 	if err != nil {
 		panic(err)
 	}
 	body := protowire.AppendBytes(nil, hb)
 	if msg != nil {
-		mb, err := proto.Marshal(msg)
+		// AllowPartial: malformed-input tests build messages that lack required fields
+		mb, err := proto.MarshalOptions{AllowPartial: true}.Marshal(msg)
 		if err != nil {
 			panic(err)
 		}
